@@ -138,6 +138,27 @@ def enum_corpus(tier):
         yield {"src": s}
 
 
+def enum_prefixes(tier):
+    """Every token-boundary prefix of every seed program (truncated input is what an editor buffer
+    looks like while typing); quick takes programs up to 400 bytes, thorough all."""
+    seen = set()
+    for e in T.corpus():
+        src = e["src"]
+        if tier == "quick" and len(src) > 400:
+            continue
+        toks = T.tokenize_rough(src)
+        acc = ""
+        for t in toks:
+            acc += t
+            if t.isspace():
+                continue
+            if acc not in seen:
+                seen.add(acc)
+                yield {"src": acc}
+                if not acc.endswith(" "):
+                    yield {"src": acc + " "}
+
+
 def enum_deep(tier):
     ns = [1000, 5000] if tier == "quick" else [1000, 5000, 20000, 100000]
     for n in ns:
@@ -153,6 +174,7 @@ def show(case):
 
 SUBS = [
     Sub("corpus", check, enum=enum_corpus, show=show),
+    Sub("prefixes", check, enum=enum_prefixes, show=show),
     Sub("text", check, gen=gen_text, cases={"quick": 6000, "thorough": 150000}, show=show),
     Sub("tokens", check, gen=gen_tokens, cases={"quick": 6000, "thorough": 150000}, show=show),
     Sub("mutate", check, gen=gen_mutate, cases={"quick": 6000, "thorough": 150000}, show=show),
